@@ -5,4 +5,11 @@ p = "/verif/DESIGN.md"
 s = open(p).read()
 table = subprocess.check_output(["python3", "/verif/tools/seeded_table.py"], text=True)
 s = re.sub(r"<!-- SEEDED-TABLE-BEGIN -->.*?<!-- SEEDED-TABLE-END -->", "<!-- SEEDED-TABLE-BEGIN -->\n" + table + "<!-- SEEDED-TABLE-END -->", s, flags=re.S)
+import json, glob
+rows = ["| change | why it was missed, what was added |", "|---|---|"]
+for mp in sorted(glob.glob("/verif/seeded/*/meta.json")):
+    m = json.load(open(mp))
+    if "history" in m:
+        rows.append("| %s | %s |" % (m["id"], m["history"].replace("|", "/")))
+s = re.sub(r"<!-- MISSED-TABLE-BEGIN -->.*?<!-- MISSED-TABLE-END -->", "<!-- MISSED-TABLE-BEGIN -->\n" + "\n".join(rows) + "\n<!-- MISSED-TABLE-END -->", s, flags=re.S)
 open(p, "w").write(s)
